@@ -19,10 +19,10 @@ ASSUMPTIONS = [
     "trusted: clang 14 + ASan/UBSan, rapidcheck, OpenSSL 3.0",
 ]
 SUBS = [
-    dict(name="s3hdr", quick=dict(cases=20000, shards=4), thorough=dict(cases=200000, shards=4)),
-    dict(name="s3query", quick=dict(cases=20000, shards=4), thorough=dict(cases=200000, shards=4)),
-    dict(name="svc", quick=dict(cases=20000, shards=4), thorough=dict(cases=200000, shards=4)),
-    dict(name="dynamodb", quick=dict(cases=20000, shards=4), thorough=dict(cases=200000, shards=4)),
+    dict(name="s3hdr", quick=dict(cases=17000, shards=4), thorough=dict(cases=170000, shards=4)),
+    dict(name="s3query", quick=dict(cases=17000, shards=4), thorough=dict(cases=170000, shards=4)),
+    dict(name="svc", quick=dict(cases=17000, shards=4), thorough=dict(cases=170000, shards=4)),
+    dict(name="dynamodb", quick=dict(cases=17000, shards=4), thorough=dict(cases=170000, shards=4)),
 ]
 
 
